@@ -175,6 +175,22 @@ def cases15(ck, rnd, loop):
             got = r["tg"]
             out.append(({"p": "C15", "n": ln, "out": r["out"], "same": 1 if got is not None and got.payload == pl else 0,
                          "secure": 1 if got is not None and got.data_secure else 0, "keyissue": receiver[2]["keyissue"]}, bytes(raw).hex()))
+    # tag-group telegrams (T_Data_Tag_Group on a keyed group address) through the real sending path: the receiver hands them to the management
+    # layer - the same APDU, marked Data Secure
+    from xknx.telegram import tpci as T  # noqa: PLC0415
+
+    for ln in (1, 2, 3, 15, 16, 100, 240):
+        key = bytes(rnd.randrange(256) for _ in range(16))
+        sender = make_node(key, [], loop)
+        receiver = make_node(key, ["1.1.1"], loop)
+        pl = apci.GroupValueRead() if ln == 1 else apci.GroupValueWrite(DPTArray(tuple(rnd.randrange(256) for _ in range(ln - 1))))
+        _sync(sender[0].cemi_handler.send_telegram(Telegram(GroupAddress(GA), tpci=T.TDataTagGroup(), payload=pl)), loop)
+        raw = bytearray(sender[1][-1].to_knx())
+        raw[0] = 0x29
+        r = receive(loop, receiver, bytes(raw))
+        got = r["tg"]
+        out.append(({"p": "C15", "n": ln, "out": r["out"], "same": 1 if got is not None and got.payload == pl and isinstance(got.tpci, T.TDataTagGroup) else 0,
+                     "secure": 1 if got is not None and got.data_secure else 0, "keyissue": receiver[2]["keyissue"]}, bytes(raw).hex()))
     # authentication-only frames and tag-group frames are built with SecureData directly (outgoing_cemi always encrypts)
     for alg_enc, tpk in ((False, "group"), (True, "taggroup"), (False, "taggroup")):
         for ln in (2, 3, 15, 16, 100):
